@@ -121,9 +121,14 @@ UnpackResults(s) == {IF \E i \in 1..Len(o) : o[i] = s THEN s ELSE "error" : o \i
 ---------------------------------------------------------------------------
 (* Call histories for the sequential replay: every sequence of at most     *)
 (* MaxHist calls over two policy values (A = Assemble, D = Dump), an       *)
-(* architecture lookup and the text forms.                                 *)
+(* architecture lookup, the text forms, and X: the caller exchanges the    *)
+(* exported fields of its two values (each value now EQUALS what the other *)
+(* was, so it must compile to what the other compiled to: the result is a  *)
+(* function of the exported fields, not of what the value held earlier).   *)
 CONSTANT MaxHist
-HistOps == {"A0", "A1", "D0", "D1", "G", "S"}
+HistOps == {"A0", "A1", "D0", "D1", "G", "S", "X"}
+\* which policy (0 / 1) value v holds after history h; the expected result of A<v> / D<v> after h is F(Holds(h, v))
+Holds(h, v) == LET swaps == Cardinality({i \in 1..Len(h) : h[i] = "X"}) IN IF swaps % 2 = 0 THEN v ELSE 1 - v
 RECURSIVE HistOfLen(_)
 HistOfLen(n) == IF n = 0 THEN {<<>>} ELSE {Append(h, o) : h \in HistOfLen(n - 1), o \in HistOps}
 Histories(dummy) == UNION {HistOfLen(n) : n \in 1..MaxHist}
